@@ -58,6 +58,7 @@ inductive NOp
   | bt (rs : List RawEvent)    -- one metadata batch of appends
   | lose                       -- the leader's cache is lost (process restart)
   | rt (r : Route)             -- a route-table change (Slot leaders, hash-slot ownership)
+  | cap (c : Nat)              -- the stream cache's session capacity is (re)configured
 
 def nexec (n : Node) : NOp → Node
   | .nd r => (nstep n r).1
@@ -65,6 +66,7 @@ def nexec (n : Node) : NOp → Node
   | .bt rs => { n with db := (tbatch n.db rs).1 }
   | .lose => loseCache n
   | .rt r => setRoute n r
+  | .cap c => { n with cap := c }
 
 def nrun (n : Node) (h : List NOp) : Node := h.foldl nexec n
 
